@@ -105,16 +105,32 @@ func c01Exec(src string, o c01Opts, extra []fhir.Resource) (pan, stack string, c
 		return "Evaluate: " + g.Panic, g.Stack, true, false
 	}
 	evalErr = err != nil
-	// the helpers
-	for name, f := range map[string]func(){
-		"EvaluateAsString":    func() { e.EvaluateAsString(input, eopts...) },
-		"EvaluateAsBool":      func() { e.EvaluateAsBool(input, eopts...) },
-		"EvaluateAsInt32":     func() { e.EvaluateAsInt32(input, eopts...) },
-		"EvaluateAsCanonical": func() { e.EvaluateAsCanonical(input, eopts...) },
-		"String":              func() { _ = e.String() },
+	// the helpers: no panic; "a value or an error" - never neither, and never a value for an
+	// evaluation that Evaluate itself reports as failed
+	helperErr := map[string]error{}
+	var canon *dtpb.Canonical
+	for _, h := range []struct {
+		name string
+		f    func()
+	}{
+		{"EvaluateAsString", func() { _, helperErr["EvaluateAsString"] = e.EvaluateAsString(input, eopts...) }},
+		{"EvaluateAsBool", func() { _, helperErr["EvaluateAsBool"] = e.EvaluateAsBool(input, eopts...) }},
+		{"EvaluateAsInt32", func() { _, helperErr["EvaluateAsInt32"] = e.EvaluateAsInt32(input, eopts...) }},
+		{"EvaluateAsCanonical", func() { canon, helperErr["EvaluateAsCanonical"] = e.EvaluateAsCanonical(input, eopts...) }},
+		{"String", func() { _ = e.String() }},
 	} {
-		if g := guard(f); g.Panic != "" {
-			return name + ": " + g.Panic, g.Stack, true, evalErr
+		if g := guard(h.f); g.Panic != "" {
+			return h.name + ": " + g.Panic, g.Stack, true, evalErr
+		}
+	}
+	if helperErr["EvaluateAsCanonical"] == nil && canon == nil {
+		return "EvaluateAsCanonical returns neither a canonical nor an error", "", true, evalErr
+	}
+	if evalErr {
+		for _, n := range []string{"EvaluateAsString", "EvaluateAsBool", "EvaluateAsInt32", "EvaluateAsCanonical"} {
+			if helperErr[n] == nil {
+				return n + " returns a value although Evaluate fails on the same input", "", true, evalErr
+			}
 		}
 	}
 	if err == nil {
